@@ -422,28 +422,40 @@ def _r182(ctx, repo, bg_kinds):
         # image and mask of the same event
         img_names = {k for k, s in asg.items() if "image" in names_in(
             s.value) and f"[{ii}]" in txt(s.value)}
-        msk_any = {k for k, s in asg.items() if isinstance(
-            s.value, ast.Subscript) and txt(s.value.value) == "mask"}
-        msk_names = {k for k in msk_any if txt(asg[k].value)
-                     == f"mask[{ii}]"}
-        if not img_names or not msk_any:
-            raise AnalysisError(f"{q}: per-event image / mask bindings lost")
-        for k in sorted(msk_any - msk_names):
-            ctx.ob("R18.2", False, f"`{short(asg[k], 40)}`: the mask is not "
-                   f"the one of event `{ii}`", node=asg[k],
-                   label="mask of the same event")
+        if not img_names:
+            raise AnalysisError(f"{q}: per-event image binding lost")
+
+        def unfold(e, depth=4):
+            """loop locals other than the event image replaced by their
+            single definition (`pixels = imgi[mski]`, `mski = mask[ii]`)"""
+            while depth and isinstance(e, ast.Name) and e.id in asg \
+                    and e.id not in img_names:
+                e = asg[e.id].value
+                depth -= 1
+            return e
+        seen_masks = set()
         for _lp, c in stats:
-            a = c.args[0] if c.args else kwarg(c, "a")
-            ok = (isinstance(a, ast.Subscript) and isinstance(
+            a0 = c.args[0] if c.args else kwarg(c, "a")
+            a = unfold(a0)
+            base_ok = isinstance(a, ast.Subscript) and isinstance(
                 a.value, ast.Name) and a.value.id in img_names
-                and isinstance(a.slice, ast.Name)
-                and a.slice.id in msk_names)
+            m = unfold(a.slice) if isinstance(a, ast.Subscript) else None
+            is_mask = isinstance(m, ast.Subscript) and txt(m.value) == "mask"
+            if base_ok and is_mask and txt(m.slice) != ii and txt(
+                    m) not in seen_masks:
+                seen_masks.add(txt(m))
+                ctx.ob("R18.2", False, f"`{txt(m)}`: the mask is not the "
+                       f"one of event `{ii}`", node=c,
+                       label="mask of the same event")
+            ok = base_ok and is_mask and txt(m.slice) == ii
             for sname in stat_names[id(c)]:
                 ctx.ob("R18.2", ok,
                        f"{sname} is taken over the event's image under "
                        f"the event's mask" if ok else
-                       f"{sname} is taken over `{txt(a)}`, not over the "
-                       f"event image restricted to the event mask", node=c,
+                       f"{sname} is taken over `{txt(a0)}`"
+                       + (f" = `{short(a, 40)}`" if a is not a0 else "")
+                       + ", not over the event image restricted to the "
+                       "event mask", node=c,
                        label=f"masked statistic {sname}")
         if not bc:
             continue
@@ -2386,4 +2398,34 @@ TWINS = list(TWINS) + [
        "def compute_ctc(mm, fl_channel):\n    ds = mm\n"),
       ('    if "fl1_max" in mm:\n        fl1 = mm["fl1_max"]',
        '    if "fl1_max" in ds:\n        fl1 = ds["fl1_max"]')]),
+]
+
+# round-3 refactoring campaign/refactorings_round3/C18/refactor1
+TWINS = list(TWINS) + [
+    ("bright_bc: nan allocation helper, masked pixels as an intermediate",
+     BC,
+     lambda s: (s.replace(
+         "        avg = np.zeros(length, dtype=np.float64) * np.nan\n",
+         "        avg = _nan_array(length)\n").replace(
+         "        std = np.zeros(length, dtype=np.float64) * np.nan\n",
+         "        std = _nan_array(length)\n").replace(
+         "        mski = mask[ii]\n", "        pixels = imgi[mask[ii]]\n"
+     ).replace("np.mean(imgi[mski])", "np.mean(pixels)").replace(
+         "np.std(imgi[mski])", "np.std(pixels)")
+         + "\n\ndef _nan_array(length):\n"
+         "    \"\"\"1D float64 array of nans\"\"\"\n"
+         "    return np.zeros(length, dtype=np.float64) * np.nan\n")),
+]
+
+MUTANTS = list(MUTANTS) + [
+    ("masked pixels intermediate taken from another event's mask", BC,
+     lambda s: s.replace(
+         "        mski = mask[ii]\n", "        pixels = imgi[mask[0]]\n"
+     ).replace("np.mean(imgi[mski])", "np.mean(pixels)").replace(
+         "np.std(imgi[mski])", "np.std(pixels)"), "R18.2"),
+    ("masked pixels intermediate without the mask", BC,
+     lambda s: s.replace(
+         "        mski = mask[ii]\n", "        pixels = imgi\n"
+     ).replace("np.mean(imgi[mski])", "np.mean(pixels)").replace(
+         "np.std(imgi[mski])", "np.std(pixels)"), "R18.2"),
 ]
